@@ -112,9 +112,23 @@ func randSp() ext {
 
 // an ID related to e: ancestor, descendant, sibling, neighbour, or the same
 func relative(e ext) ext {
-	switch rng.Intn(7) {
+	switch rng.Intn(8) {
 	case 0:
 		return e
+	case 7: // the same five NUMBERS except one zoom: a different voxel that shares every index with e
+		r := e
+		if rng.Intn(2) == 0 {
+			r.v = e.v + int64(1-2*rng.Intn(2))
+			if r.v < 0 || r.v > 35 {
+				r.v = e.v
+			}
+		} else {
+			r.h = e.h + 1
+			if r.h > 35 {
+				r.h = e.h
+			}
+		}
+		return clampExt(r)
 	case 6: // textual relative: same zooms, one component whose decimal text extends or truncates the other's (3 ↔ 31, 12 ↔ 1):
 		// an ID is its five numbers, never a prefix of its text
 		r := e
@@ -278,7 +292,15 @@ func malformed(valid string) string {
 			f[i] = noncanon(f[i])
 		}
 	case 5: // trailing or leading slash / empty string / no slash
-		switch rng.Intn(4) {
+		switch rng.Intn(6) {
+		case 4: // a doubled delimiter inside: one surplus EMPTY field between two valid ones
+			i := 1 + rng.Intn(len(f)-1+boolToInt(len(f) == 1))
+			if i >= len(f) {
+				return valid + "//"
+			}
+			return strings.Join(f[:i], "/") + "//" + strings.Join(f[i:], "/")
+		case 5:
+			return valid + "//"
 		case 0:
 			return valid + "/"
 		case 1:
